@@ -6,6 +6,8 @@ import itertools
 import lbrun
 
 PROPERTY = 'C05'
+import isolation as _iso
+ISOLATION = [(n, getattr(_iso, n)) for n in ['heap_balancer','aperture_balancer']]      # instance-isolation obligation (harness/isolation.py)
 COMPONENT = 'lbheap'          # and 'lbaperture': every case names its own component
 QUICK = dict(gen=2400)
 THOROUGH = dict(gen=30000)
